@@ -283,7 +283,8 @@ class ForwardIterativeMinimizationVisitor(IterativeMinimizationVisitor):
             i = 0
             while i < test_case.size():
                 statement = test_case.get_statement(i)
-                if statement.bound_variable in protected:
+                if statement.bound_variable in protected or statement.assertions:
+                    # Removing a statement removes the assertions attached to it, too.
                     i += 1
                     continue
                 test_clone = test_case.clone()
@@ -316,7 +317,8 @@ class BackwardIterativeMinimizationVisitor(IterativeMinimizationVisitor):
             i = test_case.size() - 1
             while i >= 0:
                 statement = test_case.get_statement(i)
-                if statement.bound_variable in protected:
+                if statement.bound_variable in protected or statement.assertions:
+                    # Removing a statement removes the assertions attached to it, too.
                     i -= 1
                     continue
                 test_clone = test_case.clone()
@@ -495,7 +497,9 @@ class CombinedMinimizationVisitor(cv.ChromosomeVisitor):
                 protected = get_assertion_protected_variables(test_case)
                 i = 0
                 while i < test_case.size():
-                    if test_case.get_statement(i).bound_variable in protected:
+                    statement = test_case.get_statement(i)
+                    if statement.bound_variable in protected or statement.assertions:
+                        # Removing a statement removes the assertions attached to it, too.
                         i += 1
                         continue
                     test_suite_clone = chromosome.clone()
